@@ -542,6 +542,28 @@ def value_expr(path: Path, index: int, expr, depth: int = 12, keep_clock: bool =
                                          seen.data['callee'].fn), trace=trace)
         return None
 
+    def observed(test):
+        """truth of a test expression as observed last on this path before ``index`` (in
+        this frame): the test itself, or -- for and/or/not -- composed of its parts, which
+        the interpreter evaluates one by one"""
+        if isinstance(test, ast.UnaryOp) and isinstance(test.op, ast.Not):
+            inner = observed(test.operand)
+            return None if inner is None else not inner
+        if isinstance(test, ast.BoolOp):
+            is_and = isinstance(test.op, ast.And)
+            for part in test.values:
+                value = observed(part)
+                if value is None:
+                    return None
+                if value != is_and:
+                    return value  # short circuit
+            return is_and
+        for pos in range(min(index, len(path.events)) - 1, -1, -1):
+            seen = path.events[pos]
+            if seen.kind == 'test' and seen.node is test and seen.data.get('fid') == fid:
+                return bool(seen.data.get('value'))
+        return None
+
     class Sub(ast.NodeTransformer):
         def visit_Attribute(self, node):
             # an attribute of a context manager object whose __enter__/__exit__ runs in
@@ -564,12 +586,9 @@ def value_expr(path: Path, index: int, expr, depth: int = 12, keep_clock: bool =
             # the branch taken on this path, when the test was observed
             source = original.get(id(node))
             if source is not None:
-                for pos in range(min(index, len(path.events)) - 1, -1, -1):
-                    seen = path.events[pos]
-                    if seen.kind == 'test' and seen.node is source.test and \
-                            seen.data.get('fid') == fid:
-                        chosen = node.body if seen.data.get('value') else node.orelse
-                        return self.visit(chosen)
+                taken = observed(source.test)
+                if taken is not None:
+                    return self.visit(node.body if taken else node.orelse)
             return self.generic_visit(node)
 
         def visit_Name(self, node):
@@ -583,6 +602,10 @@ def value_expr(path: Path, index: int, expr, depth: int = 12, keep_clock: bool =
                     arg, enter_index = bind[node.id]
                     return value_expr(path, enter_index, arg, depth - 1, keep_clock, keep,
                                       trace=trace)
+                # a module level constant (a name for a number / string / None)
+                named = _module_constant(fn, node.id)
+                if named is not None:
+                    return ast.copy_location(ast.Constant(value=named.value), node)
                 return node
             pos, store = found
             value = store.data.get('value')
@@ -647,6 +670,32 @@ def value_expr(path: Path, index: int, expr, depth: int = 12, keep_clock: bool =
             return node
 
     return Sub().visit(tree)
+
+
+def _module_constant(fn, name: str):
+    """the constant a module level name stands for: bound once, at module level, to a
+    literal, and neither a parameter nor a local of ``fn``"""
+    if fn is None or isinstance(fn.node, ast.Lambda):
+        return None
+    module = fn.module
+    entries = module.assigns.get(name)
+    if not entries or len(entries) != 1 or not isinstance(entries[0][0], ast.Constant):
+        return None
+    if isinstance(entries[0][0].value, (bytes, type(Ellipsis))):
+        return None
+    scope = fn
+    while scope is not None:
+        node = scope.node
+        if not isinstance(node, ast.Lambda):
+            args = node.args
+            if any(a.arg == name for a in args.posonlyargs + args.args + args.kwonlyargs
+                   + [x for x in (args.vararg, args.kwarg) if x is not None]):
+                return None
+            if any(isinstance(n, ast.Name) and n.id == name
+                   and isinstance(n.ctx, (ast.Store, ast.Del)) for n in ast.walk(node)):
+                return None
+        scope = scope.parent
+    return entries[0][0]
 
 
 _RECORDS = {}
